@@ -1,7 +1,7 @@
 """C03 — lattice relations hold one row per key carrying the least fixed point."""
 from . import core, eng, gen, engcheck
 
-THEOREMS = ["headLat_spec", "run_lattice_key_unique", "run_lattice_closed", "run_lattice_least", "run_lattice_rel_rows_set", "std_latOrder_maxmin", "ndl_least_fixed_point", "deterministic_is_ndl"]
+THEOREMS = ["headLat_spec", "run_lattice_key_unique", "run_lattice_closed", "run_lattice_least", "run_lattice_rel_rows_set", "std_latOrder_maxmin", "ndl_least_fixed_point", "deterministic_is_ndl", "runPhysLat_spec", "dist_hyps"]
 TRUSTED = ["Lean 4.33.0 kernel", "axioms: propext, Classical.choice, Quot.sound only (audited per theorem)",
            "statement: Props/C03.lean", "model Model/Engine.lean (headLat: look-up in new/delta/total, join_mut in place, re-queue iff changed) with the C16 "
            "lattice model as join_mut; tied by compiled programs with lattice relations over i64 / Dual<i64> / Set<i64> / Option<i64>",
@@ -9,6 +9,11 @@ TRUSTED = ["Lean 4.33.0 kernel", "axioms: propext, Classical.choice, Quot.sound 
            "ANY state the pass has already been through (snapshot at variant start, live reads, ...), in any order, complete on the rows that did not change during the pass; every such "
            "execution reaches the least fixed point (ndl_least_fixed_point) and the deterministic engine model is one (deterministic_is_ndl): the real code's live reads of lattice rows "
            "in hash order are covered by the theorem, not only by the snapshot model",
+           "Props/C03Phys.lean (Model/EnginePhysLat.lean, Proofs/PhysLat*.lean): the generated code with lattice relations over its PHYSICAL indices (row vector with the value "
+           "joined in place, key index key->row number, set-valued row-number indices, three versions each, head update: look-up in new/delta/total, join_mut, re-insert the row "
+           "number into every new index iff changed) reaches the least fixed point (runPhysLat_spec, by forward simulation onto the relation of Props/C03ND.lean); hypotheses: "
+           "desugared well-scoped rules and latPlanOk (decidable; no clause reads an index of a lattice that contains the value column - finding F9 lies exactly outside); "
+           "tied by `eng runpl` on every odd input of this check",
            "monotone use of lattice values is a hypothesis (generated programs let lattice variables flow only into lattice columns)"]
 
 
@@ -59,7 +64,7 @@ def oracle(c, p, out):
 
 
 def check(tier, replay=None):
-    return engcheck.run_property("C03", tier, modules=["AscentVerif.Props.C03", "AscentVerif.Props.C03ND"], theorems=THEOREMS, trusted=TRUSTED, group="c03",
+    return engcheck.run_property("C03", tier, modules=["AscentVerif.Props.C03", "AscentVerif.Props.C03ND", "AscentVerif.Props.C03Phys"], theorems=THEOREMS, trusted=TRUSTED, group="c03",
                                  build=build, oracle=oracle, what="compiled lattice programs",
                                  rule="generated programs with 1-2 lattice relations (max / Dual min / Set union / Option), seeded from relations, recursive through "
                                       "the lattice (shortest-path shape, saturating increments), lattice values flowing only into lattice columns; inputs with one "
